@@ -82,6 +82,14 @@ CLAIMED = {
         "Trusted: the harness's definition of 'redundant space' (DESIGN C12 guards) and its structural tree normal form (unnamed-axis identity and ellipsis ids normalised).",
         "DESIGN.md §4 C12",
     ),
+    "C03": (
+        "property-based fuzzing of all public entry points (arbitrary / mutated / seeded descriptions) + single-edit corruption of generated valid calls with a constructive ill-formedness judge",
+        "Generated-input search in three layers: arbitrary and mutated text against every entry point with an exception-class oracle; one certain-by-construction "
+        "ill-forming edit applied to a valid generated call, which must be rejected with a documented class, return nothing and never reach the compiled function; "
+        "many-operand calls. Failures are bucketed by (class, innermost einx frame). Exploration only.",
+        "Trusted: the reference unit propagation (expr.propagate) used to certify that an edit makes the call unsatisfiable; the L1 layer never claims ill-formedness.",
+        "DESIGN.md §4 C03",
+    ),
 }
 NOT_YET = "check not built yet in this round (see DESIGN.md §8 build order); the property has an executable oracle and will be claimed once its check is registered"
 
